@@ -779,10 +779,7 @@ a current key) and configuration changes. -/
 theorem readySeq_childCmd {s : Ca} (hu : UsedInv s) {c : Cmd} {evs : List Ev}
     (hc : match c with
       | .childAdd .. | .childUpdateResources .. | .childMapping .. | .childCertify .. | .childRemove _
-      | .childSuspend _ | .childUnsuspend .. | .addParent _ | .config _ => True
-      | .childRevokeKey ch childRcn _ =>
-        ∀ cd rc, get s.children ch = some cd → get s.classes (cd.nameInParent childRcn) = some rc →
-          rc.keys.current.isSome = true
+      | .childSuspend _ | .childUnsuspend .. | .addParent _ | .config _ | .childRevokeKey .. => True
       | _ => False)
     (h : s.process c = .ok evs) : ReadySeq s evs := by
   cases c with
@@ -845,11 +842,15 @@ theorem readySeq_childCmd {s : Ca} (hu : UsedInv s) {c : Cmd} {evs : List Ev}
         · split at h
           · simp only [Except.ok.injEq] at h; subst h; trivial
           · cases h
-        · simp only [Except.ok.injEq] at h; subst h
+        · split at h
+          · cases h
+          rename_i hused
+          simp only [Except.ok.injEq] at h; subst h
           cases hrc : get s.classes (cd.nameInParent childRcn) with
           | none => simp [hrc] at hcls
           | some rc =>
-            have hcur := hc cd rc hg hrc
+            -- since fix 239f0a59 the key is in use in THIS class: the class is past `pending`
+            have hcur := (hu ch cd ki _ hg (Classical.not_not.mp hused)).2 rc hrc
             refine readySeq_of_all ?_
             intro e he
             simp only [List.mem_cons, List.not_mem_nil, or_false] at he
@@ -1397,7 +1398,7 @@ theorem process_readySeq {s : Sys} (hinv : Inv s) {c : Cmd} {evs : List Ev} (hok
   | childUpdateResources ch res => exact readySeq_childCmd hu trivial h
   | childMapping ch n m => exact readySeq_childCmd hu trivial h
   | childCertify ch r k l na => exact readySeq_childCmd hu trivial h
-  | childRevokeKey ch r k => exact readySeq_childCmd hu hok h
+  | childRevokeKey ch r k => exact readySeq_childCmd hu trivial h
   | childRemove ch => exact readySeq_childCmd hu trivial h
   | childSuspend ch => exact readySeq_childCmd hu trivial h
   | childUnsuspend ch now1d na => exact readySeq_childCmd hu trivial h
@@ -1451,6 +1452,17 @@ theorem exec_stored_iff {s s' : Sys} {c : Cmd} {evs : List Ev} :
           cases h1; cases h2
           exact ⟨rfl, rfl⟩
 
+/-- Since fix 239f0a59 (a revocation is executed only for a key in use in the class the request
+names, and such a class is past `pending` - `UsedInv`) `RevokeOk` is not needed any more: the
+events of EVERY successful `process` are ready. -/
+theorem process_readySeq_all {s : Sys} (hinv : Inv s) {c : Cmd} {evs : List Ev}
+    (h : s.ca.process c = .ok evs) : ReadySeq s.ca evs := by
+  by_cases hok : RevokeOk s.ca c
+  · exact process_readySeq hinv hok h
+  · cases c with
+    | childRevokeKey ch r k => exact readySeq_childCmd hinv.used trivial h
+    | _ => exact absurd trivial hok
+
 /-- A revocation request outside `RevokeOk` never changes anything: the listener refuses (class
 still pending), or - since fix 7be8c4c6 - the key was revoked by this CA before and the request
 is confirmed without an event. -/
@@ -1472,7 +1484,9 @@ theorem bad_revoke_not_stored {s : Sys} (hinv : Inv s) {c : Cmd} (hbad : ¬ Revo
         simp only [Sys.runEvs, Option.some.injEq] at hr
         exact absurd hr.symm hne
       · cases hp
-    · simp only [Except.ok.injEq] at hp; subst hp
+    · split at hp
+      · cases hp
+      simp only [Except.ok.injEq] at hp; subst hp
       obtain ⟨ca', o'⟩ := s'
       obtain ⟨ha, ho⟩ := runEvs_some_iff.mp hr
       -- the listener accepted `ChildCertificatesUpdated`: there is an object class, so the
@@ -1505,7 +1519,9 @@ theorem revoke_applies {s : Ca} {ch : Handle} {childRcn : Rcn} {ki : KeyId} {evs
       · split at h
         · simp only [Except.ok.injEq] at h; subst h; rfl
         · cases h
-      · simp only [Except.ok.injEq] at h; subst h
+      · split at h
+        · cases h
+        simp only [Except.ok.injEq] at h; subst h
         cases hrc : get s.classes (cd.nameInParent childRcn) with
         | none => simp [hrc] at hcls
         | some rc =>
